@@ -31,6 +31,7 @@ EXCEPTIONS = {
     ("ZSTD_compress2", "ZSTD_CCtx_reset"): CANT_FAIL_RESET,
     ("ZSTD_compressStream2", "ZSTD_CCtx_reset"): CANT_FAIL_RESET,
     ("ZSTD_compressStream_generic", "ZSTD_CCtx_reset"): CANT_FAIL_RESET,
+    ("ZSTD_compressSequences", "ZSTD_CCtx_reset"): CANT_FAIL_RESET + " (added by fix 864619d)",
     ("ZSTD_initCCtx", "ZSTD_CCtx_reset"): "fresh context is in zcss_init: reset_parameters cannot fail (assert documents it)",
     ("ZSTD_initStaticCCtx", "ZSTD_CCtx_reset"): "freshly zero-filled static context is in zcss_init: reset_parameters cannot fail (same idiom as ZSTD_initCCtx; added by fix de9d135)",
     ("ZSTD_compressStream_generic", "ZSTD_compressBound"): BOUND,
